@@ -437,6 +437,36 @@ static void run_cell(int kind, size_t len, int path, unsigned salt) {
     return;
   }
 
+  if (kind == K_OPTION_ITEM && path == P_LAYERED) {
+    // a ROOT_PREFIX item of that length: the default directories are derived from it; nothing exists below it, so
+    // the read answers "no file" - without writing past a path buffer
+    std::string pre = "/" + filler(len, salt, '-');
+    econf_file *rk = nullptr;
+    econf_err re = econf_newKeyFile_with_options(&rk, ("ROOT_PREFIX=" + pre).c_str());
+    VF_CHECK(re == ECONF_SUCCESS && rk, "option-refused", "ROOT_PREFIX item of " << pre.size() << " characters: rc=" << re);
+    re = econf_readConfig(&rk, "vfproj", "/usr/lib", "cfg", "conf", "=", "#");
+    if (rk) econf_freeFile(rk);
+    VF_CHECK(re == ECONF_NOFILE, "wrong-code", "read below a ROOT_PREFIX of " << pre.size() << " characters: rc=" << re << " (" << econf_errString(re) << "), expected ECONF_NOFILE");
+  }
+  if (kind == K_DROPIN_NAME && len <= NAME_MAX) {
+    // writing a file whose name has that length (the name is within the limit: the write has to succeed)
+    econf_file *wk = nullptr;
+    econf_newKeyFile(&wk, '=', '#');
+    econf_setStringValue(wk, "S", "k", "written");
+    std::string wname = len <= 5 ? std::string("w.cnf") : filler(len - 4, salt, '-') + ".cnf";
+    mkdir_p(R + "/wdir");
+    econf_err we = econf_writeFile(wk, (R + "/wdir").c_str(), wname.c_str());
+    econf_freeFile(wk);
+    VF_CHECK(we == ECONF_SUCCESS, "write-failed", "econf_writeFile with a file name of " << wname.size() << " characters: rc=" << we << " (" << econf_errString(we) << ")");
+    econf_file *rb = nullptr;
+    econf_err rbe = econf_readFile(&rb, (R + "/wdir/" + wname).c_str(), "=", "#");
+    char *wv = nullptr;
+    if (rbe == ECONF_SUCCESS) econf_getStringValue(rb, "S", "k", &wv);
+    std::string wvs = wv ? wv : "";
+    free(wv);
+    if (rb) econf_freeFile(rb);
+    VF_CHECK(rbe == ECONF_SUCCESS && wvs == "written", "wrong-content", "file written under a name of " << wname.size() << " characters: read back rc=" << rbe << " value '" << wvs << "'");
+  }
   if (kind == K_POSTFIX) {
     // a list of drop-in directory postfixes: a short one first, a long one ("/" + len characters: the directory
     // <name>/<long>) after it, a short one again; every one of the three directories holds a drop-in
